@@ -98,6 +98,25 @@ def combine(c, w1, w2):
     return out
 
 
+def as_slices(m, ins):
+    """replace every array-valued input signal of the module by a SignalSlice view into a larger signal with the same values"""
+    import pymoto as pym
+    out = []
+    for i, sg in enumerate(ins):
+        st = sg.state
+        if isinstance(st, np.ndarray) and st.ndim >= 1 and st.shape[0] >= 1:
+            pad = np.full((1,) + st.shape[1:], 3.25, dtype=st.dtype)
+            big = pym.Signal("P%d" % i, np.concatenate([pad, st, pad, pad], axis=0))
+            view = big[1:1 + st.shape[0]]
+            for j, x in enumerate(m.sig_in):
+                if x is sg:
+                    m.sig_in[j] = view
+            out.append(view)
+        else:
+            out.append(sg)
+    return out
+
+
 def measure(entry, w, nresp=1):
     m, ins, outs = entry.make()
     for _ in range(nresp):
@@ -136,6 +155,8 @@ def replay_history(entry, steps, kind, basis=None):
     import zlib
     rng = np.random.default_rng(zlib.crc32(entry.name.encode()))
     m, ins, outs = entry.make()
+    if kind == "slice":
+        ins = as_slices(m, ins)
     w1 = w2 = g1 = g2 = None
     for i, stp in enumerate(steps):
         op = stp["op"]
@@ -148,6 +169,14 @@ def replay_history(entry, steps, kind, basis=None):
                 if w1 is None:
                     w1, w2 = make_basis(outs, rng, kind)
                     g1, g2 = measure(entry, w1), measure(entry, w2)
+                    if kind == "prealloc":
+                        # input signals that own an allocated sensitivity of the right type: contributions are added in place and
+                        # reset() zeroes instead of dropping
+                        for sg, ga, gb in zip(ins, g1, g2):
+                            ref = ga if ga is not None else gb
+                            if ref is not None and isinstance(sg.state, (np.ndarray, float, complex)) and sg.sensitivity is None:
+                                sg.sensitivity = np.zeros_like(np.asarray(ref) + 0 * np.asarray(gb if gb is not None else ref))
+                                sg.keep_alloc = True
             elif op == "SetSeed":
                 c = stp["args"]
                 seeds = [None] * len(outs) if c == [] else combine(c, w1, w2)
@@ -222,7 +251,7 @@ def run(chk, replay=None):
         if res is not None:
             chk.violation(signature(replay["module"], res[1]), res[2], replay)
         return
-    chk.extra["rule"] = ("a case is (module configuration from modtable.py, seed representation dense/dyadic/real-typed on complex outputs, history emitted by "
+    chk.extra["rule"] = ("a case is (module configuration from modtable.py, seed representation dense/dyadic/real-typed on complex outputs or input-signal realisation prealloc/slice, history emitted by "
                          "TLC from ModuleProto.tla); non-trivial = the history contains at least one Sens after a SetSeed")
     chk.assumptions += ["the module is deterministic for fixed inputs (reference contributions g1, g2 are measured on a second instance)",
                         "comparison tolerance per module: 1e-9 (direct), 1e-6..1e-8 where an iterative/LAPACK solve is involved"]
@@ -261,10 +290,18 @@ def run(chk, replay=None):
                 return True
         return False
     jobs = []
+    loops = [b for b in behs if interesting(b) and sum(1 for s in b if s["op"] == "Sens") >= 2]
+    import random
     for idx, e in enumerate(ents):
         kinds = ["dense"] + (["dyad"] if "matrix_out" in e.tags else []) + (["real"] if complex_out(e) else [])
         for kind in kinds:
             for part in par.chunks(behs, 4):
+                jobs.append((idx, kind, part, chk.seed))
+        # other realisations of the input signals (allocated sensitivities, SignalSlice views): a sample of the histories with
+        # at least two sensitivity calls
+        for kind in ("prealloc", "slice"):
+            pick = random.Random(chk.seed * 7919 + idx).sample(loops, min(len(loops), 400 if thorough else 60))
+            for part in par.chunks(pick, 6):
                 jobs.append((idx, kind, part, chk.seed))
     results = par.pmap(_replay_entry, jobs)
     pos = {}
